@@ -1,12 +1,12 @@
 package props
 
 import (
-	"strconv"
 	"fmt"
 	"math"
 	"math/big"
 	"reflect"
 	"regexp"
+	"strconv"
 	"strings"
 	"testing"
 
